@@ -10,6 +10,7 @@ from .loader import AnalysisError
 from .minieval import Evaluator, Unsupported, Raised, MODKEY
 
 
+import copy as _copy
 import itertools as _it
 import re as _re
 
@@ -20,9 +21,10 @@ STDLIB_CALLS = {
     "itertools.takewhile": lambda f, it: list(_it.takewhile(f, it)), "itertools.dropwhile": lambda f, it: list(_it.dropwhile(f, it)),
     "itertools.chain": lambda *its: list(_it.chain(*its)), "itertools.zip_longest": lambda *a, **k: list(_it.zip_longest(*a, **k)),
     "itertools.product": lambda *a, **k: list(_it.product(*a, **k)),
+    "copy.deepcopy": _copy.deepcopy, "copy.copy": _copy.copy,
     "re.fullmatch": _re.fullmatch, "re.match": _re.match, "re.search": _re.search, "re.sub": _re.sub, "re.escape": _re.escape, "re.findall": _re.findall,
 }
-STDLIB_MODELS = {"itertools": {MODKEY: "itertools", "chain": {MODKEY: "itertools.chain"}}, "re": {MODKEY: "re"}}
+STDLIB_MODELS = {"itertools": {MODKEY: "itertools", "chain": {MODKEY: "itertools.chain"}}, "re": {MODKEY: "re"}, "copy": {MODKEY: "copy"}}
 
 
 class ModuleInterp:
@@ -124,8 +126,16 @@ class ModuleInterp:
             raise Unsupported("recursion too deep")
         try:
             env = self.module_env(finfo.module.name)
-            ev = Evaluator(finfo.node, globals_env=env, call_hook=self._hook(finfo.module.name), max_steps=self.max_steps,
-                           obj_types=self.obj_types, attr_hook=lambda m, a: self.read_global(m, a))
+            hook = self._hook(finfo.module.name)
+
+            def name_hook(name, _mod=finfo.module.name, _hook=hook):
+                # a function used as a value (f = g if c else h; f(x)): a proxy that calls it through the same hook
+                kind, qual = self.ctx.r.resolve_name(_mod, name)
+                if name in self.extern or (kind == "func" and qual in self.ctx.p.functions):
+                    return lambda *a, **k: _hook(name, a, k)
+                raise Unsupported(f"unknown name {name}")
+            ev = Evaluator(finfo.node, globals_env=env, call_hook=hook, max_steps=self.max_steps,
+                           obj_types=self.obj_types, attr_hook=lambda m, a: self.read_global(m, a), name_hook=name_hook)
             ev.genv = env      # share (not copy) so that `global` assignments persist in the module environment
             return ev.call(*args, **kwargs)
         finally:
@@ -146,7 +156,15 @@ class ModuleInterp:
 
             def make(fi):
                 return lambda self_, *a, **k: self.call(fi, self_, *a, **k)
-            ns[mname] = property(make(finfo)) if is_prop else make(finfo)
+            if any(isinstance(d, ast.Name) and d.id == "staticmethod" for d in finfo.node.decorator_list):
+                ns[mname] = staticmethod((lambda fi: (lambda *a, **k: self.call(fi, *a, **k)))(finfo))
+                continue
+            if is_prop and mname in getattr(clsinfo, "setters", {}):
+                def make_set(fi):
+                    return lambda self_, v: self.call(fi, self_, v)
+                ns[mname] = property(make(finfo), make_set(clsinfo.setters[mname]))
+            else:
+                ns[mname] = property(make(finfo)) if is_prop else make(finfo)
 
         def init(self_, **attrs):
             for k, v in attrs.items():
